@@ -8,7 +8,8 @@ package caskettls
 
 //@ unit make_tls_config frames=on props=C06 filter=`caskettls\.MakeTLSConfig$`
 //@ func (*Config).buildStandardTLSConfig
-//@   modifies Config.tlsConfig, Config.ALPN
+//@   requires c != nil && c.Manager != nil
+//@   modifies Config.tlsConfig, Config.ALPN, E:string
 //@ func assertConfigsCompatible
 //@   pure reads Config
 //@   requires [both_configs_present] cfg1 != nil && cfg2 != nil
@@ -17,12 +18,15 @@ package caskettls
 //@   ensures result != nil
 
 //@ func MakeTLSConfig
-//@   modifies Config.ALPN, Config.tlsConfig
-//@   requires forall(k, 0, len(configs), configs[k] != nil)
+//@   modifies Config.ALPN, Config.tlsConfig, E:string
+//@   // every configuration has its certificate manager (NewConfig makes one; the `tls` setup and the server type only
+//@   // hand out configurations made by it)
+//@   requires forall(k, 0, len(configs), configs[k] != nil && configs[k].Manager != nil)
 //@   ensures [no_mixing] (result1 == nil && len(configs) > 0) ==> forall(k, 0, len(configs), configs[k] != nil && configs[k].Enabled == configs[0].Enabled)
 //@   ensures [disabled_gives_nil] (result1 == nil && len(configs) > 0 && !configs[0].Enabled) ==> result0 == nil
 //@   loop 1 invariant 0 <= #i && #i <= len(configs)
 //@   loop 1 invariant forall(k, 0, #i, configs[k] != nil)
+//@   loop 1 invariant forall(k, 0, len(configs), configs[k] != nil && configs[k].Manager != nil)
 //@   loop 1 invariant forall(k, #i, len(configs), configs[k] == old(configs[k]))
 //@   loop 1 invariant forall(k, 0, #i, configs[k].Enabled == configs[0].Enabled)
 //@   loop 1 invariant forallT(h, string, has(configMap, h) ==> configMap[h] != nil)
